@@ -222,6 +222,40 @@ func (e *engine) runTotality() {
 			e.rep.Hist["token-separators:"+parts[1]]++
 			repMu.Unlock()
 		}
+		if e.has("jsonld") || e.has("htmljsonld") || e.has("html") {
+			repMu.Lock()
+			e.rep.Exhaustive = append(e.rep.Exhaustive, fmt.Sprintf("families container-maps (%d documents: 17 container kinds x 38 entry values x keys x 3 positions x coercions; every nullish entry value with every key, position and coercion) and map-order (%d documents) in full through jsonld, htmljsonld, html x text offsets on/off", len(containerMapDocs()), len(mapOrderDocs(12))))
+			repMu.Unlock()
+		}
+		// 5d. JSON-LD container maps x entry values x keys x positions x coercion, and the map-order
+		// documents, through jsonld, htmljsonld and the combined HTML decoder, offsets on and off
+		// (deterministic, every run; jsonldmaps.go)
+		for di, d := range append(containerMapDocs(), mapOrderDocs(12)...) {
+			wrapped := []byte(wrapJSONLDInHTML(string(d.B)))
+			fam := "container-maps"
+			if !strings.Contains(d.Name, "/pos") {
+				fam = "map-order"
+			}
+			for fi, f := range []string{"jsonld", "htmljsonld", "html"} {
+				for _, off := range []bool{true, false} {
+					o := e.randOpts(r, f)
+					o.Offsets, o.Lax = off, false
+					o.Mode = []string{"", "", "json-ld-1.1", ""}[(di+fi)%4]
+					in := d.B
+					if f != "jsonld" {
+						in = wrapped
+					}
+					emit(Case{Format: f, Opts: o, Sched: wholeSched, Input: in, Family: fam, Name: d.Name})
+				}
+			}
+			if fam == "container-maps" {
+				parts := strings.Split(d.Name, "/") // <kind>/<entry value>/key<k>/<coercion>/pos<k>
+				repMu.Lock()
+				e.rep.Hist["container-maps:kind:"+parts[0]+"(x 3 decoders x offsets on/off)"]++
+				e.rep.Hist["container-maps:entry:"+parts[1]]++
+				repMu.Unlock()
+			}
+		}
 		// 6. nesting and huge tokens; the big ones go to an expendable child process
 		for _, f := range allFormats {
 			for _, g := range nestGens[f] {
